@@ -212,9 +212,18 @@ pub fn reset() {
     NEXT_OBJ.with(|s| s.set(0));
     NEXT_CHAN.with(|s| s.set(0));
     BOUNDARIES.with(|s| s.set(0));
-    // give the tables' memory back as well: how far a table keyed by addresses has grown depends
-    // on the addresses, and a harness that measures process memory must not see that
+    OBJS.with(|s| s.borrow_mut().clear());
+    CHANS.with(|s| s.borrow_mut().clear());
+    VIOLATIONS.with(|s| s.borrow_mut().clear());
+}
+
+/// `reset`, and give the tables' memory back as well: how far a table keyed by addresses has grown
+/// depends on the addresses, and a harness that compares process memory between runs must not
+/// see that
+pub fn release_tables() {
+    reset();
     OBJS.with(|s| *s.borrow_mut() = HashMap::default());
+    FREED.with(|s| *s.borrow_mut() = HashMap::default());
     CHANS.with(|s| *s.borrow_mut() = HashMap::default());
     VIOLATIONS.with(|s| *s.borrow_mut() = Vec::new());
 }
